@@ -35,7 +35,9 @@ type CallOptions struct {
 // satisfies grpc.Header call options.
 func (co *CallOptions) SetHeaders(md metadata.MD) {
 	for _, hdr := range co.Headers {
-		*hdr = md
+		// each target gets a copy of its own: the caller may edit what it was
+		// given without changing what the other targets (or the stream) show
+		*hdr = md.Copy()
 	}
 }
 
@@ -43,7 +45,7 @@ func (co *CallOptions) SetHeaders(md metadata.MD) {
 // This satisfies grpc.Trailer call options.
 func (co *CallOptions) SetTrailers(md metadata.MD) {
 	for _, tlr := range co.Trailers {
-		*tlr = md
+		*tlr = md.Copy()
 	}
 }
 
